@@ -1,7 +1,7 @@
 (* C14 -- Message streams are fragmentation-proof and gated by the handshake.
    Property theorems only; proofs live in Proofs/FrameProofs.v, Proofs/ShakeProofs.v. *)
 From Coq Require Import List ZArith Bool.
-From DV Require Import Model.Frame Model.Shake Proofs.FrameProofs Proofs.ShakeProofs Proofs.ShakeAfter.
+From DV Require Import Model.Frame Model.Shake Proofs.FrameProofs Proofs.ShakeProofs Proofs.ShakeAfter Proofs.ShakeChunk.
 Import ListNotations.
 Open Scope Z_scope.
 
@@ -218,25 +218,49 @@ Proof.
 Qed.
 Print Assumptions C14_after_empty_reply_refuted.
 
-(* Handshake outcome independent of chunking -- PARTIAL.  Proved: (a) once
-   dataReceived is handed back the connection is the wrapped protocol, so its
-   trace is chunk independent (below); (b) at the phase-5 boundary the trace
-   depends only on rest ++ later (C14_after); (c) whatever the chunking, no
-   delivery before phase 6 and fail-closed (C14_gate, C14_fail_closed).
-   Missing: that the cut positions INSIDE the packets of phases 1-5 do not
-   change which phase fails / that the challenge is sent once; that part is
-   covered by the correspondence only (every 1- and 2-cut, byte-wise and random
-   cuts of 15 scenarios x 3 channels on the real wrapper and on the model). *)
-Theorem C14_shake_chunking_partial : forall O ch w chunks,
-  wrestored w = true -> clive (winner w) = true -> iter (cfs (winner w)) = None ->
-  cut (snd (sconn_run O ch (mkS w true) chunks))
-  = cut (whole ch (cfs (winner w)) (concat chunks)).
+(* The handshake outcome does not depend on how the byte stream is cut, cuts
+   inside the packets of phases 1-5 included.  For every oracle that does not
+   validate-and-echo the EMPTY blob (real PGP cannot), every channel and every
+   chunking: up to the first loseConnection/exception the trace (challenge sent,
+   close, deliveries) is that of the stream delivered in one piece; it is equal
+   to it when that has no stop before its last event (every failing handshake;
+   every passing one on farm/log; protocol-conformant streams on the database
+   channel); and with no stop at all the whole final state (wrapper buffer,
+   length, phase, wrapped protocol) is equal too. *)
+Theorem C14_shake_chunking : forall O ch chunks,
+  (verify O [] && echo_ok O []) = false ->
+  let W := snd (sconn_feed O ch sinit (concat chunks)) in
+  cut (snd (sconn_run O ch sinit chunks)) = cut W
+  /\ (quiet (removelast W) = true -> snd (sconn_run O ch sinit chunks) = W)
+  /\ (quiet W = true -> sconn_run O ch sinit chunks = sconn_feed O ch sinit (concat chunks)).
 Proof.
-  intros O ch w chunks Hr Hl Hf.
-  pose proof (S_restored_run O ch chunks w Hr) as R. rewrite Hl in R. rewrite R.
-  destruct (winner w) as [fs lv]. cbn [clive cfs] in *. subst lv. apply F_conn_cut, Hf.
+  intros O ch chunks NC. destruct chunks as [|d ds].
+  - cbn [concat sconn_run]. rewrite S_feed_nil_sinit. cbn [snd]. auto.
+  - change (concat (d :: ds)) with (d ++ concat ds). cbv zeta. split; [|split].
+    + apply (S_conn_cut O ch NC ds d sinit eq_refl S_sinit_good).
+    + apply (S_conn_full O ch NC ds d sinit eq_refl S_sinit_good).
+    + apply (S_conn_state O ch NC ds d sinit eq_refl S_sinit_good).
 Qed.
-Print Assumptions C14_shake_chunking_partial.
+Print Assumptions C14_shake_chunking.
+
+(* Without that hypothesis the statement is false (same corner as
+   C14_after_empty_reply_refuted): with an oracle validating the empty reply,
+   phase 5 fires as soon as its zero length has arrived and phase 6 closes. *)
+Theorem C14_shake_chunking_any_oracle_refuted : exists O ch chunks,
+  cut (snd (sconn_run O ch sinit chunks)) <> cut (snd (sconn_feed O ch sinit (concat chunks))).
+Proof.
+  exists (oracle_of [[7]; []] [[]] [99]), (chan_of [] [[5]]),
+         [[0;0;0;4; 0;0;0;1; 7; 0;0;0;4; 0;0;0;0]; [0;0;0;1;5]].
+  vm_compute. discriminate.
+Qed.
+Print Assumptions C14_shake_chunking_any_oracle_refuted.
+
+Example C14_shake_chunking_example :
+  (verify ex_O [] && echo_ok ex_O []) = false
+  /\ snd (sconn_run ex_O ex_ch sinit (split_lens [2; 3; 6; 1; 5] ex_stream))
+     = snd (sconn_feed ex_O ex_ch sinit ex_stream)
+  /\ snd (sconn_feed ex_O ex_ch sinit ex_stream) = [Sent [0;0;0;2;99;100]; Deliver [5]].
+Proof. vm_compute. auto. Qed.
 
 Example C14_after_example :
   let w := sw (fst (sconn_run ex_O ex_ch sinit [firstn 17 ex_stream])) in
